@@ -11,6 +11,16 @@ specs/AuthTrace.tla: binding T.  Real datagrams are captured from protocol runs 
                      by itself (key at byte 23, signature checked with the ipv8_rust_tunnels primitive directly) and
                      logs what the real code did (handler entered - seen through the closure cell of the decorator -,
                      peer handed to it, sends, new verified peers).  TLC validates every event against Auth.tla.
+Histories          : Auth.tla also carries the verified-peer table as "key -> addresses" (book), the source address of
+                     every delivery, acquaintances made before the window (Acquaint) and restarts of the node; a
+                     rejected datagram must leave the table alone (RejectInert / Drop), a valid one may change the entry
+                     of the key that signed it only (BookLegit / Run).  The driver reads the real Network after every
+                     delivery (key -> Peer.addresses) and logs it with the source address.  Receiver states: fresh,
+                     acquainted (honest sender put into the Network beforehand), and SESSIONS: one receiving node lives
+                     through a history made by the real code (the honest sender and then the adversary introduce
+                     themselves with their own valid introduction-requests from their own addresses), then the forgeries
+                     arrive from the honest sender's, the adversary's and a third address, then the valid ones, then the
+                     core forgeries again - the node is never reset, TLC follows the table through the whole trace.
 """
 from __future__ import annotations
 
@@ -545,7 +555,7 @@ def src_addr(r_src, cap):
     return cap.src if r_src == "orig" else OTHER_SRC if r_src == "other" else ATTACKER_SRC
 
 
-def mutations(w, cap, donor, tier, rng, state, other_prefixes, registered, light):
+def mutations(w, cap, donor, tier, rng, state, other_prefixes, registered, light, step=8):
     """All mutated variants of one capture. `light` = sparse byte-level families (second receiver state in quick)."""
     d = cap.data
     p = parse(d)
@@ -554,7 +564,7 @@ def mutations(w, cap, donor, tier, rng, state, other_prefixes, registered, light
     curve25519 = p.keybytes.startswith(b"LibNaCLPK:")
     att = "att" if curve25519 else "att2"
     attkey = w.keys[att]
-    step = 8 if light else 1
+    step = step if light else 1
     bits = range(8) if (tier == "thorough" and not light) else None
 
     def region(i):
@@ -659,6 +669,13 @@ def abs_valid(d):
         d["sig"]["covers"] == {k: d[k] for k in ("prefix", "msgid", "key", "body")}
 
 
+def group_key(steps_ev, dev, book_before):
+    """Deliveries with the same key are the same step of Auth.tla: one event in the trace stands for all of them.
+    The source address of a delivery that ran no handler and left the table alone does not matter to the spec."""
+    inert = not dev["entered"] and not dev["newv"] and dev["book"] == book_before
+    return json.dumps([steps_ev, dict(dev, src="*") if inert else dev, book_before], sort_keys=True)
+
+
 def head_events(ab, cname, donor_cname, acquainted=()):
     """acquaintances of the receiving overlays (history), send of the splice donor (if it is a valid honest
     datagram) and send / inject of the base capture"""
@@ -679,10 +696,66 @@ def full(e, target, frm="cur"):
 
 
 # =====================================================================================================
+# session: a history of deliveries to ONE receiving node, then forged input (state is never reset)
+# =====================================================================================================
+def run_session(w, cname, ab, donor_cname, history, deliveries, auth_table, stats=None):
+    """history: [[kind "send"|"inject", datagram hex, src]] valid datagrams that make their senders verified peers;
+    deliveries: [[[[mutation, hex, signer hint], ...], src]].  -> (events of one trace, one record per delivery)"""
+    rcv = Receiver(w, cname)
+    events, records = [], []
+    try:
+        for kind, hx, src in history:
+            data = bytes.fromhex(hx)
+            d = ab.abstract(data)
+            if not abs_valid(d) or (kind == "send") != (d["key"] in ("h1", "h2", "h3")):
+                raise MachineryError("session history of %s: %s of a datagram that is not a valid one: %s" % (cname, kind, d))
+            res = rcv.deliver(data, tuple(src), keep=True)
+            _steps, dev = observe(ab, [("Noop", data, None)], data, res, cname, auth_table, tuple(src))
+            if [d["key"], ab.addrname(src)] not in dev["book"] or not dev["entered"]:
+                raise MachineryError("session history of %s: the valid introduction-request of %s did not make him a "
+                                     "verified peer at his address: %s" % (cname, d["key"], dev))
+            events.append(full({"k": kind, "d": d}, cname, "base"))
+            events.append(full(dict(dev, d=d), cname))
+        book_now = events[-1]["book"]
+        events += head_events(ab, cname, donor_cname)
+        seen = {}
+        for pos, (steps_hex, src) in enumerate(deliveries):
+            steps = [(nm, bytes.fromhex(hx), hint) for nm, hx, hint in steps_hex]
+            final = steps[-1][1]
+            res = rcv.deliver(final, tuple(src), keep=True)
+            steps_ev, dev = observe(ab, steps, final, res, cname, auth_table, tuple(src))
+            mname = "+".join(st[0] for st in steps)
+            rec = {"dev": dev, "res": res, "mname": mname, "final": final, "dfin": steps_ev[-1]["d"],
+                   "book_before": book_now, "emitted": False}
+            if stats is not None:
+                stats["deliveries"] += 1
+                stats["session_deliveries"] = stats.get("session_deliveries", 0) + 1
+                stats["crashes"] += 1 if res["crashed"] else 0
+                stats["entered"] += 1 if dev["entered"] else 0
+                bm = stats["by_mutation"].setdefault(mname, [0, 0])
+                bm[0] += 1
+                bm[1] += 1 if dev["entered"] else 0
+            gkey = group_key(steps_ev, dev, book_now)
+            if gkey in seen:          # same datagram, same table before and after: the event is in the trace already
+                rec["same_as"] = seen[gkey]
+            else:
+                seen[gkey] = pos
+                rec.update(emitted=True, first_event=len(events) + 1, n_events=len(steps_ev) + 1)
+                events += [full(e, cname) for e in steps_ev]
+                events.append(full(dict(dev, d=steps_ev[-1]["d"]), cname))
+            book_now = dev["book"]
+            records.append(rec)
+    finally:
+        rcv.close()
+    return events, records
+
+
+# =====================================================================================================
 # one overlay class: capture, mutate, deliver, record
 # =====================================================================================================
 def class_job(args):
-    cname, tier, seed, auth_table, prefix_table, sabotage, limit_ids = args
+    cname, tier, seed, auth_table, prefix_table, sabotage, limit_ids = args[:7]
+    families = args[7] if len(args) > 7 else ("fresh", "acquainted", "session")
     w = World()
     w.make_keys()
     rng = random.Random("%s-%s" % (seed, cname))
@@ -699,6 +772,27 @@ def class_job(args):
         from ipv8.lazy_community import EZPackOverlay
         orig = EZPackOverlay._verify_signature
         EZPackOverlay._verify_signature = lambda self, auth, data: (True, orig(self, auth, data)[1])
+    if sabotage == "anyknown":     # negative control on the REAL code: a signature of ANY verified peer is accepted
+        from ipv8.lazy_community import EZPackOverlay
+        orig = EZPackOverlay._verify_signature
+
+        def any_known(self, auth, data):
+            ok, remainder = orig(self, auth, data)
+            for peer in list(self.network.verified_peers):
+                n = w.ec.get_signature_length(peer.public_key)
+                ok = ok or w.ec.is_valid_signature(peer.public_key, data[:-n], data[-n:])
+            return ok, remainder
+        EZPackOverlay._verify_signature = any_known
+    if sabotage == "earlybook":    # negative control on the REAL code: the entry of the carried key is touched
+        from ipv8.lazy_community import EZPackOverlay      # before the verdict on the signature is known
+        orig = EZPackOverlay._verify_signature
+
+        def early_book(self, auth, data):
+            known = self.network.verified_by_public_key_bin.get(auth.public_key_bin)
+            if known:
+                known.add_address(w.simnet.UDPv4Address("9.9.9.9", 9999))
+            return orig(self, auth, data)
+        EZPackOverlay._verify_signature = early_book
     receivers = {}
 
     def receiver(cn, state, cap):
@@ -730,22 +824,30 @@ def class_job(args):
             # prefer a donor of the same message id (a body that unpacks) signed with the same curve
             same = [x for x in donors if x.msgid == cap.msgid]
             donor = (same or donors or [None])[rng.randrange(len(same or donors or [None]))]
-            ab = Abstractor(w, prefix_names, cap.data, donor.data if donor else None)
-            for state in ("fresh", "acquainted"):
+            ab = Abstractor(w, prefix_names, cap.data, donor.data if donor else None, cap.src)
+            meta = {"base": cap.data.hex(), "base_src": list(cap.src), "sender": cap.sender,
+                    "origin": cap.origin, "donor": donor.data.hex() if donor else None,
+                    "donor_overlay": donor.cname if donor else cname,
+                    "keys": {kb.hex(): kn for kb, kn in w.keyname.items()},
+                    "strangers": [kb.hex() for kb in w.strangers.values()]}
+            for state in [st for st in ("fresh", "acquainted") if st in families]:
                 light = tier == "quick" and state == "acquainted"
                 groups = {}
-                events = head_events(ab, cname, donor.cname if donor else cname)
+                acq = []
+                if state == "acquainted":      # every receiving overlay of this trace knows the honest sender already
+                    acq = [(cn, cap.sender, "a_orig") for cn in [cname] + ([] if light else sorted(other_prefixes))]
+                events = head_events(ab, cname, donor.cname if donor else cname, acq)
                 recs = mutations(w, cap, donor, tier, rng, state, other_prefixes, registered, light)
                 for r in recs:
                     target = r.target or cname
                     rcv = receiver(target, state, cap)
                     final = r.steps[-1][1]
-                    src = cap.src if r.src == "orig" else ATTACKER_SRC
+                    src = src_addr(r.src, cap)
                     res = rcv.deliver(final, src)
                     stats["deliveries"] += 1
                     if res["crashed"]:
                         stats["crashes"] += 1
-                    steps_ev, dev = observe(ab, r.steps, final, res, target, auth_table)
+                    steps_ev, dev = observe(ab, r.steps, final, res, target, auth_table, src)
                     dfin, entered, peer, newv = steps_ev[-1]["d"], dev["entered"], dev["peer"], dev["newv"]
                     mname = "+".join(s[0] for s in r.steps)
                     bm = stats["by_mutation"].setdefault(mname, [0, 0])
@@ -755,13 +857,16 @@ def class_job(args):
                     if mname == "Noop" and target == cname:
                         stats["baseline_entered"].setdefault(str(mid), 0)
                         stats["baseline_entered"][str(mid)] += 1 if entered else 0
-                    gkey = json.dumps([steps_ev, dev], sort_keys=True)
+                    gkey = group_key(steps_ev, dev, [[cap.sender, "a_orig"]] if state == "acquainted" else [])
                     if gkey not in groups:
                         groups[gkey] = len(examples)
                         examples.append({"overlay": target, "capture_overlay": cname, "msgid": mid, "state": state,
                                          "mutation": mname, "datagram": final.hex(), "src": list(src), "count": 0,
                                          "observed": {"entered": [e[0] for e in res["entered"]], "sent": res["sent"],
-                                                      "new_verified": newv, "peer": peer},
+                                                      "new_verified": newv, "peer": peer, "src": dev["src"],
+                                                      "verified_peer_table": dev["book"],
+                                                      "verified_peer_table_before":
+                                                          [[cap.sender, "a_orig"]] if state == "acquainted" else []},
                                          "abstract": dfin, "acquainted": state == "acquainted", "first_event": None,
                                          "steps": [[nm, dt.hex(), hint] for (nm, dt, hint) in r.steps],
                                          "n_events": len(steps_ev) + 1})
@@ -769,15 +874,46 @@ def class_job(args):
                         examples[ex]["first_event"] = len(events) + 1      # 1-based index in the trace
                         events += [full(e, target) for e in steps_ev]
                         events.append(full(dict(dev, d=dfin), target))
+                        if res["rebuilt"]:
+                            events.append(full({"k": "restart"}, target))
                         examples[ex]["trace"] = len(traces)
                     examples[groups[gkey]]["count"] += 1
-                traces.append({"overlay": cname, "msgid": mid, "state": state, "events": events,
-                               "meta": {"base": cap.data.hex(), "base_src": list(cap.src), "sender": cap.sender,
-                                        "origin": cap.origin, "donor": donor.data.hex() if donor else None,
-                                        "keys": {kb.hex(): kn for kb, kn in w.keyname.items()}}})
+                traces.append({"overlay": cname, "msgid": mid, "state": state, "events": events, "meta": meta})
+
+            if "session" not in families:
+                continue
+            # ---- session: ONE receiving node lives through a history of deliveries (the honest sender and the
+            # adversary both introduce themselves with their own valid datagrams), then the forgeries arrive
+            att = "att" if parse(cap.data).keybytes.startswith(b"LibNaCLPK:") else "att2"
+            history = [["send", intros[cap.sender][0].hex(), list(cap.src)],
+                       ["inject", intros[att][0].hex(), list(ATTACKER_SRC)]]
+            recs = mutations(w, cap, donor, tier, rng, "session", other_prefixes, registered, True, step=16)
+            recs = [r for r in recs if not r.valid] + [r for r in recs if r.valid] + [r for r in recs if r.core]
+            deliveries = [[[[nm, dt.hex(), hint] for (nm, dt, hint) in r.steps], list(src_addr(r.src, cap))] for r in recs]
+            events, records = run_session(w, cname, ab, donor.cname if donor else cname, history, deliveries,
+                                          auth_table, stats)
+            for pos, rec in enumerate(records):
+                if not rec["emitted"]:
+                    examples[records[rec["same_as"]]["example"]]["count"] += 1
+                    continue
+                dev, res = rec["dev"], rec["res"]
+                rec["example"] = len(examples)
+                examples.append({"overlay": cname, "capture_overlay": cname, "msgid": mid, "state": "session",
+                                 "mutation": rec["mname"], "datagram": rec["final"].hex(), "src": deliveries[pos][1],
+                                 "count": 1,
+                                 "observed": {"entered": [e[0] for e in res["entered"]], "sent": res["sent"],
+                                              "new_verified": dev["newv"], "peer": dev["peer"], "src": dev["src"],
+                                              "verified_peer_table": dev["book"],
+                                              "verified_peer_table_before": rec["book_before"]},
+                                 "abstract": rec["dfin"], "acquainted": False, "first_event": rec["first_event"],
+                                 "steps": deliveries[pos][0], "n_events": rec["n_events"], "trace": len(traces),
+                                 "session_pos": pos})
+            traces.append({"overlay": cname, "msgid": mid, "state": "session", "events": events,
+                           "meta": dict(meta, history=history, session_deliveries=deliveries)})
     for rcv in receivers.values():
         rcv.close()
     stats["receiver_builds"] = sum(r.builds for r in receivers.values())
+    stats.setdefault("session_deliveries", 0)
     # decorated-as-signed handlers that the protocol table does not list (informational)
     for i in registered:
         h = probe.ov.decode_map[i]
@@ -835,6 +971,31 @@ def validate(traces, tag, ctx=None):
     return False, int(tids[-1]) if tids else None, int(ls[-1]) if ls else None, r
 
 
+def validate_controls(groups):
+    """groups: [(name, traces)] -> {name: True iff Auth.tla rejects at least one trace of the group}.
+    One TLC run for all of them (-continue: every rejected trace is reported with its tid)."""
+    import re
+    flat, owner = [], []
+    for name, traces in groups:
+        for t in traces:
+            flat.append(t)
+            owner.append(name)
+    tmp = scratch_dir("c01c-")
+    try:
+        path = os.path.join(tmp, "traces.json")
+        with open(path, "w", encoding="utf-8") as f:
+            json.dump([{"events": t["events"]} for t in flat], f)
+        r = run_tlc("AuthTrace.tla", "AuthTrace.cfg", env={"TRACE_FILE": path}, coverage=False, continue_=True)
+    finally:
+        shutil.rmtree(tmp, ignore_errors=True)
+    rejected = {int(x) for x in re.findall(r"^/\\ tid = (\d+)", r.output, re.M)}
+    fired = {name: False for name, _ in groups}
+    for tid in rejected:
+        if 1 <= tid <= len(owner):
+            fired[owner[tid - 1]] = True
+    return fired
+
+
 def merge_parts(parts):
     """Jobs of the same overlay class -> one result per class (trace indexes of the examples shifted)."""
     by = {}
@@ -849,7 +1010,7 @@ def merge_parts(parts):
         r["traces"] += p["traces"]
         r["examples"] += p["examples"]
         a, b = r["stats"], p["stats"]
-        for k in ("deliveries", "entered", "crashes", "receiver_builds"):
+        for k in ("deliveries", "entered", "crashes", "receiver_builds", "session_deliveries"):
             a[k] += b[k]
         for k in ("baseline_entered", "captured", "synthesised"):
             for i, v in b[k].items():
@@ -863,6 +1024,26 @@ def merge_parts(parts):
     return [by[cn] for cn in CLASS_NAMES if cn in by]
 
 
+def describe(ex, ev, violated):
+    """-> (signature, description) of a deliver event that Auth.tla rejects"""
+    if not ex:
+        return "event", "rejected deliver event %s" % ev
+    obs = ex["observed"]
+    tail = "abstract datagram %s, receiver state %s, observed %s [%s]" % (
+        json.dumps(ex["abstract"], sort_keys=True), ex["state"], json.dumps(obs, sort_keys=True), violated)
+    sig = "%s:%s:%s" % (ex["overlay"], ex["abstract"]["msgid"], ex["mutation"])
+    if not ev["entered"] and obs.get("verified_peer_table") != obs.get("verified_peer_table_before"):
+        return sig + ":table", (
+            "a datagram (%s of message %d) that %s rejected (no handler ran) changed the verified-peer table of the node "
+            "from %s to %s - an entry was attributed to a datagram that Auth.tla does not allow to have any effect: %s" % (
+                ex["mutation"], ex["abstract"]["msgid"], ex["overlay"], obs.get("verified_peer_table_before"),
+                obs.get("verified_peer_table"), tail))
+    return sig, ("handler of authenticated message %d of %s ran for a datagram (%s) in a way that Auth.tla does not allow "
+                 "(signature not valid under the carried key over everything, peer other than the carried key, or the "
+                 "verified-peer entry of another key changed): %s" % (
+                     ex["abstract"]["msgid"], ex["overlay"], ex["mutation"], tail))
+
+
 def example_at(res_examples, trace_index, l):
     best = None
     for ex in res_examples:
@@ -871,42 +1052,131 @@ def example_at(res_examples, trace_index, l):
     return best
 
 
+def _job_main(conn, job):
+    try:
+        out = ("ok", class_job(job))
+    except MachineryError as e:
+        out = ("machinery", str(e))
+    except BaseException as e:  # noqa: BLE001
+        import traceback
+        out = ("error", "%r\n%s" % (e, traceback.format_exc()[-1500:]))
+    try:
+        conn.send(out)
+    finally:
+        conn.close()
+
+
+class JobRunner:
+    """One forked process per delivery job (fresh interpreter state for every job), at most `nproc` at a time.
+    A worker that dies without an answer (e.g. killed by the kernel under memory pressure) is noticed - its pipe
+    closes - and the job is started again once; multiprocessing.Pool would wait for it forever."""
+
+    def __init__(self, nproc):
+        self.nproc = nproc
+        self.mp = multiprocessing.get_context("fork")
+        self.running = {}     # job index -> (process, connection)
+
+    def _start(self, i, job):
+        parent, child = self.mp.Pipe(duplex=False)
+        p = self.mp.Process(target=_job_main, args=(child, job), daemon=True)
+        p.start()
+        child.close()
+        self.running[i] = (p, parent)
+
+    def run_all(self, jobs, timeout):
+        import time as _time
+        from multiprocessing.connection import wait
+        deadline = _time.monotonic() + timeout
+        pending = list(range(len(jobs)))
+        tries = [0] * len(jobs)
+        results = [None] * len(jobs)
+        while pending or self.running:
+            while pending and len(self.running) < self.nproc:
+                i = pending.pop(0)
+                tries[i] += 1
+                self._start(i, jobs[i])
+            if _time.monotonic() > deadline:
+                raise MachineryError("delivery jobs did not finish within %ss" % timeout)
+            ready = wait([c for (_p, c) in self.running.values()], timeout=5)
+            for i in [i for i, (_p, c) in self.running.items() if c in ready]:
+                p, c = self.running.pop(i)
+                try:
+                    kind, val = c.recv()
+                except (EOFError, OSError):
+                    kind, val = "died", "worker process ended without a result (exit code %s)" % p.exitcode
+                c.close()
+                p.join(timeout=10)
+                if kind == "ok":
+                    results[i] = val
+                elif kind == "died" and tries[i] < 2:
+                    pending.insert(0, i)
+                elif kind == "machinery":
+                    raise MachineryError(val)
+                else:
+                    raise MachineryError("delivery job for %s %s failed: %s" % (jobs[i][0], jobs[i][6], val))
+        return results
+
+    def terminate(self):
+        for p, c in self.running.values():
+            try:
+                p.kill()
+                c.close()
+            except Exception:  # noqa: BLE001
+                pass
+        self.running.clear()
+
+
 def run(tier, seed, replay=None):
     ctx = Ctx(PID, tier, seed, "model_checking")
     ctx.cov["rule"] = ("TLC: every behaviour of Auth.tla (honest sends x adversary mutations x deliveries to every overlay) "
                        "for small constants. Binding: one evaluation = one real (mutated) datagram handed to "
                        "endpoint.notify_listeners of a real overlay and abstracted into a deliver event; TLC validates "
                        "every distinct event against Run/Drop of Auth.tla with the hand-written table; non-trivial = "
-                       "distinct (overlay class, message id, receiver state, mutation, abstract datagram, outcome) groups")
+                       "distinct (overlay class, message id, receiver state, mutation, abstract datagram, outcome) groups; "
+                       "every deliver event carries the source address and the verified-peer table (key -> addresses) "
+                       "read from the real Network afterwards; sessions = histories of deliveries into one receiving "
+                       "node (honest and adversarial introductions first, forged input afterwards)")
     ctx.assumptions += ["signature primitives of ipv8_rust_tunnels are trusted (used directly by the driver to decide validity)",
                         "mutations are the finite family listed in DESIGN.md over real captures, not all byte strings",
                         "entry of hand-written handlers (no decorated inner function: DiscoveryCommunity 246) is "
                         "observed through their effects (datagrams sent, verified peers added)",
-                        "cells of (Hidden)TunnelCommunity (decode_map_private) are protected by circuit keys: not covered"]
+                        "cells of (Hidden)TunnelCommunity (decode_map_private) are protected by circuit keys: not covered",
+                        "addresses are abstracted to three names (the honest sender's, the adversary's, any other): a "
+                        "change between two 'other' addresses is not seen",
+                        "histories are introductions (message 246) of the honest sender and of the adversary followed by "
+                        "the mutation families; state kept outside Network.verified_peers (request caches, DHT routing "
+                        "table, circuits) is not part of the model"]
     if replay:
         return run_replay(ctx, replay)
-    pool = multiprocessing.get_context("fork").Pool(min(16, os.cpu_count() or 2), maxtasksperchild=1)
+    pool = JobRunner(min(16, os.cpu_count() or 2))
     try:
         return _run(ctx, tier, seed, pool)
     finally:
         pool.terminate()
-        pool.join()
 
 
 def _run(ctx, tier, seed, pool):
+    import time as _time
+    t0, timing = _time.monotonic(), {}
     # ---- specification level: the model, its deviations (negative controls), the protocol table
     tp = ThreadPoolExecutor(4)
     tp2 = ThreadPoolExecutor(2)
+    f_nc = tp.submit(run_tlc, "Auth.tla", "Auth_nocheck.cfg", coverage=False)      # also prints the protocol table
     f_mc = tp.submit(run_tlc, "Auth.tla", "Auth_mc.cfg" if tier == "quick" else "Auth_big.cfg", timeout=6000)
     f_sp = tp.submit(run_tlc, "Auth.tla", "Auth_splice.cfg")
+    # histories: acquaintances, two deliveries, source addresses, the verified-peer table (key -> addresses)
+    f_hi = tp.submit(run_tlc, "Auth.tla", "Auth_hist.cfg", timeout=6000)
     f_extra = {}
     if tier != "quick":      # deeper instances: three mutations on one datagram; two honest datagrams and two mutations
-        f_extra = {"deep": tp2.submit(run_tlc, "Auth.tla", "Auth_deep.cfg", timeout=6000),
+        f_extra = {"hist2": tp2.submit(run_tlc, "Auth.tla", "Auth_hist2.cfg", timeout=6000),      # two deliveries
+                   "deep": tp2.submit(run_tlc, "Auth.tla", "Auth_deep.cfg", timeout=6000),
                    "splice2": tp2.submit(run_tlc, "Auth.tla", "Auth_splice2.cfg", timeout=6000)}
-    f_nc = tp.submit(run_tlc, "Auth.tla", "Auth_nocheck.cfg", coverage=False)
     f_pa = tp.submit(run_tlc, "Auth.tla", "Auth_partial.cfg", coverage=False)
-    r_sp = f_sp.result()
-    auth_table, prefix_table = read_tables(r_sp.output)
+    f_he = tp.submit(run_tlc, "Auth.tla", "Auth_hist_early.cfg", coverage=False)
+    f_ht = tp.submit(run_tlc, "Auth.tla", "Auth_hist_trust.cfg", coverage=False)
+    r_nc = f_nc.result()
+    auth_table, prefix_table = read_tables(r_nc.output)
+    timing["protocol_table_read"] = round(_time.monotonic() - t0, 1)
     if sorted(auth_table) != sorted(CLASS_NAMES):
         raise MachineryError("protocol table of Auth.tla does not list the shipped overlay classes: %s" % sorted(auth_table))
 
@@ -917,29 +1187,34 @@ def _run(ctx, tier, seed, pool):
         ids = sorted(auth_table[cn])
         jobs += [(cn, tier, seed, auth_table, prefix_table, None, ids[i:i + chunk]) for i in range(0, len(ids), chunk)]
     jobs.sort(key=lambda j: -sum(1 for i in j[6] if i < 200))      # own messages are the longest: start them first
-    jobs.append(("DHTCommunity", "quick", seed, auth_table, prefix_table, "nocheck", [1, 3, 246]))
-    async_results = [pool.apply_async(class_job, (j,)) for j in jobs]
-    parts = []
-    for j, ar in zip(jobs, async_results):
-        try:
-            parts.append(ar.get(timeout=6000))
-        except MachineryError:
-            raise
-        except Exception as e:  # noqa: BLE001
-            raise MachineryError("delivery job for %s %s failed: %r" % (j[0], j[6], e)) from e
+    jobs.append(("DHTCommunity", "quick", seed, auth_table, prefix_table, "earlybook", [1], ("acquainted", "session")))
+    jobs.append(("DHTCommunity", "quick", seed, auth_table, prefix_table, "anyknown", [1, 246], ("session",)))
+    jobs.append(("DHTCommunity", "quick", seed, auth_table, prefix_table, "nocheck", [1, 3, 246], ("fresh",)))
+    parts = pool.run_all(jobs, timeout=6000)
+    timing["delivery_jobs_done"] = round(_time.monotonic() - t0, 1)
     sabotaged = parts.pop()
+    sabotaged_known = parts.pop()
+    sabotaged_early = parts.pop()
     results = merge_parts(parts)
 
-    r_mc, r_nc, r_pa = f_mc.result(), f_nc.result(), f_pa.result()
+    r_mc, r_sp, r_pa, r_hi, r_he, r_ht = (f.result() for f in (f_mc, f_sp, f_pa, f_hi, f_he, f_ht))
     tp.shutdown()
     tp2.shutdown()
-    for tag, r in [("mc", r_mc), ("splice", r_sp)] + [(k, f.result()) for k, f in f_extra.items()]:
+    timing["model_checking_done"] = round(_time.monotonic() - t0, 1)
+    timing["tlc_wall"] = {k: round(r.wall, 1) for k, r in (("mc", r_mc), ("splice", r_sp), ("hist", r_hi), ("nocheck", r_nc),
+                                                            ("partial", r_pa), ("hist_early", r_he), ("hist_trust", r_ht))}
+    for tag, r in [("mc", r_mc), ("splice", r_sp), ("hist", r_hi)] + [(k, f.result()) for k, f in f_extra.items()]:
         if not r.ok:
             raise MachineryError("Auth.tla (%s): TLC reports %s on the specification itself" % (tag, r.violated))
         ctx.add_tlc(tag, r)
     taken = {a: r_mc.coverage.get(a, (0, 0))[1] + r_sp.coverage.get(a, (0, 0))[1] for a in MC_ACTIONS}
+    taken.update({"hist:" + a: r_hi.coverage.get(a, (0, 0))[1] for a in HIST_ACTIONS})
     if any(v == 0 for v in taken.values()):
         raise MachineryError("vacuous model: actions never taken: %s" % [a for a, v in taken.items() if v == 0])
+    ctx.control("spec that updates the verified-peer entry of the carried key before the signature verdict violates "
+                "BookLegit / RejectInert", r_he.violated in ("BookLegit", "RejectInert"))
+    ctx.control("spec that accepts a signature of the key known at the source address violates an invariant",
+                r_ht.violated in ("AuthOnly", "NoForgedVerified", "HonestAttribution", "BookLegit"))
     ctx.control("spec with the validity check deleted violates an invariant",
                 r_nc.violated in ("AuthOnly", "NoForgedVerified", "OverlaySeparation", "HonestAttribution"))
     ctx.control("spec whose signature does not cover prefix and message id violates an invariant",
@@ -952,7 +1227,8 @@ def _run(ctx, tier, seed, pool):
     for res in results:
         st = res["stats"]
         per_class[res["cname"]] = {k: st[k] for k in ("deliveries", "entered", "crashes", "captured", "synthesised",
-                                                      "handwritten", "receiver_builds", "signed_but_not_in_table")}
+                                                      "handwritten", "receiver_builds", "signed_but_not_in_table",
+                                                      "session_deliveries")}
         per_class[res["cname"]]["by_mutation"] = {k: {"deliveries": v[0], "handler_ran": v[1]}
                                                   for k, v in sorted(st["by_mutation"].items())}
     ctx.note("deliveries", per_class)
@@ -963,9 +1239,15 @@ def _run(ctx, tier, seed, pool):
         for ti, t in enumerate(res["traces"]):
             alltraces.append(t)
             owner.append((ri, ti))
+    ctl_pool = ThreadPoolExecutor(1)
+    try:      # (on a tree that breaks the property the accepted events that the controls corrupt may not exist)
+        controls = ctl_pool.submit(validate_controls,
+                                   control_traces(alltraces, auth_table, sabotaged, sabotaged_known, sabotaged_early))
+    except MachineryError as e:
+        controls = e
     live = list(range(len(alltraces)))
     rounds = 0
-    while live and rounds < 8:
+    while live and rounds < 5:
         rounds += 1
         ok, tid, l, r = validate([alltraces[i] for i in live], "trace%d" % rounds, ctx)
         if ok:
@@ -980,14 +1262,12 @@ def _run(ctx, tier, seed, pool):
         if ev["k"] != "deliver":
             raise MachineryError("AuthTrace rejects a %s event of the driver's own abstraction (%s, trace of %s id %s): %s" % (
                 ev["k"], r.violated, res["cname"], alltraces[gi]["msgid"], json.dumps(ev)[:600]))
-        what = ("handler of authenticated message %d of %s ran for a datagram (%s) that Auth.tla does not allow to run: "
-                "abstract datagram %s, observed %s [%s]" % (
-                    ex["abstract"]["msgid"], ex["overlay"], ex["mutation"], json.dumps(ex["abstract"], sort_keys=True),
-                    json.dumps(ex["observed"], sort_keys=True), r.violated)) if ex else "rejected deliver event %s" % ev
-        sig = "%s:%s:%s" % (ex["overlay"], ex["abstract"]["msgid"], ex["mutation"]) if ex else "event"
+        sig, what = describe(ex, ev, r.violated)
         ctx.violation(sig, what, dict(ex, **alltraces[gi]["meta"]) if ex else None)
         # drop the whole trace (one capture in one receiver state) and look for further, different violations
         live.remove(gi)
+    timing["trace_validation_done"] = round(_time.monotonic() - t0, 1)
+    ctx.note("timing", timing)
     ngroups = 0
     for res in results:
         for ex in res["examples"]:
@@ -1017,30 +1297,69 @@ def _run(ctx, tier, seed, pool):
                 if not res["stats"]["baseline_entered"].get(str(mid)):
                     raise MachineryError("vacuous corpus: the unmodified datagrams of %s id %d never reach the handler" % (
                         res["cname"], mid))
-        # ---- negative controls of the binding
-        ok, _t, _l, _r = validate(sabotaged["traces"], "ctl")
-        ctx.control("real code with EZPackOverlay._verify_signature forced to True is rejected", not ok)
-        good = next(t for t in alltraces if t["overlay"] == "DiscoveryCommunity" and t["state"] == "fresh")
-        bad = json.loads(json.dumps(good))
-        for e in bad["events"]:
-            if e["k"] == "deliver" and not e["entered"] and e["d"]["sig"]["kind"] == "garbage" \
-                    and e["d"]["msgid"] in auth_table["DiscoveryCommunity"] and e["d"]["prefix"] == "p_DiscoveryCommunity":
-                e["entered"], e["peer"] = True, e["d"]["key"]
-                break
-        else:
-            raise MachineryError("no garbage-signature event to corrupt")
-        ok, _t, _l, _r = validate([bad], "ctl")
-        ctx.control("trace claiming a handler ran for a garbage signature is rejected", not ok)
-        bad = json.loads(json.dumps(good))
-        for e in bad["events"]:
-            if e["k"] == "deliver" and e["entered"] and e["d"]["msgid"] in auth_table["DiscoveryCommunity"]:
-                e["peer"] = "h3" if e["peer"] != "h3" else "h1"
-                break
-        else:
-            raise MachineryError("no accepted event to corrupt")
-        ok, _t, _l, _r = validate([bad], "ctl")
-        ctx.control("trace in which the handler got a peer other than the carried key is rejected", not ok)
+        # ---- negative controls of the binding (validated while the main validation was running)
+        if isinstance(controls, MachineryError):
+            raise controls
+        for name, fired in controls.result().items():
+            ctx.control(name, fired)
+    ctl_pool.shutdown()
     return ctx.finish()
+
+
+def control_traces(alltraces, auth_table, sabotaged, sabotaged_known, sabotaged_early):
+    """-> [(what must be rejected, traces)] : sabotaged real code and corrupted copies of accepted traces"""
+    out = [("real code with EZPackOverlay._verify_signature forced to True is rejected", sabotaged["traces"]),
+           ("real code that accepts a signature made by ANY verified peer is rejected in the sessions (history: the "
+            "adversary introduced himself first)", [t for t in sabotaged_known["traces"] if t["state"] == "session"]),
+           ("real code that touches the verified-peer entry of the carried key before the signature verdict is "
+            "rejected (acquainted receivers and sessions)",
+            [t for t in sabotaged_early["traces"] if t["state"] != "fresh"])]
+    good = next(t for t in alltraces if t["overlay"] == "DiscoveryCommunity" and t["state"] == "fresh")
+    bad = json.loads(json.dumps(good))
+    for e in bad["events"]:
+        if e["k"] == "deliver" and not e["entered"] and e["d"]["sig"]["kind"] == "garbage" \
+                and e["d"]["msgid"] in auth_table["DiscoveryCommunity"] and e["d"]["prefix"] == "p_DiscoveryCommunity":
+            e["entered"], e["peer"] = True, e["d"]["key"]
+            del bad["events"][bad["events"].index(e) + 1:]
+            break
+    else:
+        raise MachineryError("no garbage-signature event to corrupt")
+    out.append(("trace claiming a handler ran for a garbage signature is rejected", [bad]))
+    bad = json.loads(json.dumps(good))
+    for e in bad["events"]:
+        if e["k"] == "deliver" and e["entered"] and e["d"]["msgid"] in auth_table["DiscoveryCommunity"]:
+            e["peer"] = "h3" if e["peer"] != "h3" else "h1"
+            del bad["events"][bad["events"].index(e) + 1:]
+            break
+    else:
+        raise MachineryError("no accepted event to corrupt")
+    out.append(("trace in which the handler got a peer other than the carried key is rejected", [bad]))
+    # sessions: a rejected forgery that names the honest sender's key re-points his verified-peer entry
+    sess = next(t for t in alltraces if t["overlay"] == "DHTCommunity" and t["state"] == "session")
+    bad = json.loads(json.dumps(sess))
+    for e in bad["events"]:
+        if e["k"] == "deliver" and not e["entered"] and e["src"] == "a_att" and e["d"]["key"] in ("h1", "h2", "h3") \
+                and [e["d"]["key"], "a_orig"] in e["book"] and [e["d"]["key"], "a_att"] not in e["book"]:
+            e["book"] = sorted([p for p in e["book"] if p != [e["d"]["key"], "a_orig"]] + [[e["d"]["key"], "a_att"]])
+            del bad["events"][bad["events"].index(e) + 1:]
+            break
+    else:
+        raise MachineryError("no rejected forgery in a session to corrupt")
+    out.append(("session trace in which a rejected forgery moves the verified-peer entry of the key it names to the "
+                "adversary's address is rejected", [bad]))
+    # sessions: the adversary's own valid datagram changes the entry of somebody else
+    bad = json.loads(json.dumps(sess))
+    for e in bad["events"]:
+        if e["k"] == "deliver" and e["entered"] and e["peer"] in ("att", "att2") and e["d"]["key"] == e["peer"] \
+                and any(p[0] in ("h1", "h2", "h3") and p[1] == "a_orig" for p in e["book"]):
+            e["book"] = sorted([p[0], "a_att"] if p[0] in ("h1", "h2", "h3") else p for p in e["book"])
+            del bad["events"][bad["events"].index(e) + 1:]
+            break
+    else:
+        raise MachineryError("no accepted datagram of the adversary in a session to corrupt")
+    out.append(("session trace in which a valid datagram of the adversary's own key changes the verified-peer entry "
+                "of another key is rejected", [bad]))
+    return out
 
 
 def run_replay(ctx, path):
@@ -1056,29 +1375,42 @@ def run_replay(ctx, path):
     prefix_names = {}
     for cn in CLASS_NAMES:
         prefix_names.setdefault(w.prefix_of(cn), prefix_table[cn])
+    for hx in rep.get("strangers", []):
+        w.strangers[len(w.strangers)] = bytes.fromhex(hx)
     base = bytes.fromhex(rep["base"])
     donor = bytes.fromhex(rep["donor"]) if rep.get("donor") else None
-    ab = Abstractor(w, prefix_names, base, donor)
     src = tuple(rep["src"])
-    acq = ((parse(base).keybytes, tuple(rep.get("base_src") or src)),) if rep.get("acquainted") else ()
-    rcv = Receiver(w, rep["overlay"], acq)
-    steps = [(nm, bytes.fromhex(hx), hint) for nm, hx, hint in rep["steps"]]
-    final = steps[-1][1]
-    res = rcv.deliver(final, src)
-    rcv.close()
-    steps_ev, dev = observe(ab, steps, final, res, rep["overlay"], auth_table)
-    events = head_events(ab, rep["capture_overlay"], rep["capture_overlay"])
-    events += [full(e, rep["overlay"]) for e in steps_ev] + [full(dev, rep["overlay"])]
+    ab = Abstractor(w, prefix_names, base, donor, tuple(rep.get("base_src") or src))
+    if rep.get("state") == "session":
+        # the whole history of the session up to the recorded delivery, into one receiving node
+        deliveries = rep["session_deliveries"][:rep["session_pos"] + 1]
+        events, records = run_session(w, rep["overlay"], ab, rep.get("donor_overlay") or rep["capture_overlay"],
+                                      rep["history"], deliveries, auth_table)
+        res, dev = records[-1]["res"], records[-1]["dev"]
+        steps_ev = [{"d": records[-1]["dfin"]}]
+    else:
+        acq = ((parse(base).keybytes, tuple(rep.get("base_src") or src)),) if rep.get("acquainted") else ()
+        rcv = Receiver(w, rep["overlay"], acq)
+        steps = [(nm, bytes.fromhex(hx), hint) for nm, hx, hint in rep["steps"]]
+        final = steps[-1][1]
+        res = rcv.deliver(final, src)
+        rcv.close()
+        steps_ev, dev = observe(ab, steps, final, res, rep["overlay"], auth_table, src)
+        events = head_events(ab, rep["capture_overlay"], rep.get("donor_overlay") or rep["capture_overlay"],
+                             [(rep["overlay"], rep["sender"], "a_orig")] if rep.get("acquainted") else [])
+        events += [full(e, rep["overlay"]) for e in steps_ev] + [full(dev, rep["overlay"])]
     ok, _tid, l, r = validate([{"events": events}], "replay", ctx)
     ctx.evaluated(1)
     ctx.traces(1)
-    print("replay %s msgid=%s mutation=%s: handler entered=%s sent=%d new_verified=%s peer=%s -> %s" % (
-        rep["overlay"], dev and steps_ev[-1]["d"]["msgid"], rep["mutation"], [e[0] for e in res["entered"]], res["sent"],
-        dev["newv"], dev["peer"], "accepted by Auth.tla" if ok else "REJECTED by Auth.tla (%s, event %s)" % (r.violated, l)))
+    print("replay %s msgid=%s mutation=%s state=%s: handler entered=%s sent=%d new_verified=%s peer=%s src=%s "
+          "verified-peer table=%s -> %s" % (
+              rep["overlay"], dev and steps_ev[-1]["d"]["msgid"], rep["mutation"], rep.get("state"),
+              [e[0] for e in res["entered"]], res["sent"], dev["newv"], dev["peer"], dev["src"], dev["book"],
+              "accepted by Auth.tla" if ok else "REJECTED by Auth.tla (%s, event %s)" % (r.violated, l)))
     w.vloop.uninstall()
     if not ok:
         if events[min(l, len(events)) - 1]["k"] != "deliver" and r.violated == "TraceAccepted":
             raise MachineryError("replay: the driver's abstraction of the datagram is not a step of Auth.tla")
         ctx.violation("replay:%s:%s:%s" % (rep["overlay"], steps_ev[-1]["d"]["msgid"], rep["mutation"]),
-                      "handler ran for a datagram that Auth.tla does not allow to run (replayed)", rep)
+                      "delivery with an effect (handler run / verified-peer table) that Auth.tla does not allow (replayed)", rep)
     return ctx.finish()
